@@ -195,6 +195,17 @@ def run_case(case, ctx):
             bad = ~(np.abs(Fs - F1) <= (base + far) * sc + 20 * nzr) & finite
         if not np.any(bad):
             ctx.label("illconditioned_tolerated")
+    # Power-of-two factors scale every length (and excitation) exactly in binary, and every step of a closed form that is
+    # homogeneous in the lengths commutes with that scaling, rounding included: the rescaled result is then the *same
+    # floating-point number*, however ill-conditioned the formula is at that observer. Only an absolute threshold or an
+    # inhomogeneous step breaks this. (Measured on this tree: bit-identical for all classes except the Cuboid, whose
+    # formula subtracts logarithms of products of four lengths; it keeps the tolerance above.)
+    if case["s_kind"] == "pow2" and cls != "Cuboid":
+        with np.errstate(invalid="ignore", divide="ignore"):
+            exact_bad = ~(np.abs(Fs - F1) <= 1e-12 * sc) & finite
+        if np.any(exact_bad):
+            ctx.label("pow2_not_exact")
+            bad = bad | exact_bad
     if np.any(bad):
         idx = np.argwhere(bad)[0]
         k_obs = int(idx[3])
